@@ -21,7 +21,11 @@ func main() {
 		n = 60 * o.Scale
 	}
 	var hs []*c01lib.Hist
-	for i := 0; i < n; i++ {
+	// cancellation inside the write-coalescing window (a written frame must keep its stream id reserved)
+	for v, proto := range []int{2, 4, 2, 5} {
+		hs = append(hs, c01lib.CoalCancelHist(len(hs), proto, v+1))
+	}
+	for i := len(hs); i < n; i++ {
 		hs = append(hs, c01lib.Gen(o.Rng, i, c01lib.Lifecycle))
 	}
 	reps := c01lib.RunAll(hs, 6, 5)
